@@ -26,6 +26,8 @@ type verifCase struct {
 	Env  map[string]string `json:"env"`
 	File *string           `json:"file"`
 	Args []string          `json:"args"`
+	// command-line arguments placed BEFORE "-config <file>" (flags may come in any order)
+	PreArgs []string `json:"pre_args"`
 }
 
 func TestVerifDriver(t *testing.T) {
@@ -89,7 +91,7 @@ func verifOptions(c verifCase) map[string]string {
 	}
 	oldArgs, oldCL := os.Args, flag.CommandLine
 	defer func() { os.Args, flag.CommandLine = oldArgs, oldCL }()
-	os.Args = append([]string{"vflow", "-config", cfg}, c.Args...)
+	os.Args = append(append(append([]string{"vflow"}, c.PreArgs...), "-config", cfg), c.Args...)
 	flag.CommandLine = flag.NewFlagSet("vflow", flag.ContinueOnError)
 	flag.CommandLine.SetOutput(ioutil.Discard)
 	o := NewOptions()
